@@ -499,6 +499,19 @@ func cacheWitnesses(o *drv.Out) {
 	}
 	c.op("purge", "ok")
 	c.close()
+	// (g) the store object reads its own PENDING height (IndexBlock done, Commit not yet) after the
+	// IndexBlock entry left the cache: the indexer txn has sort=false, so the per-height tx iteration does
+	// not see the pending txs; the block is cached without them and served after the commit
+	c = mk("blockcache-g-live-read-of-pending-height")
+	c.set([]byte{1, 'a'}, []byte{1})
+	c.indexQC(1, h32("g1"))
+	c.indexBlock(1, h32("g1"), [][]byte{h32("tx-g-0")})
+	c.purgeCache()
+	c.getBlockByHeight("live", 1, false)
+	c.commit()
+	c.getBlockByHeight("live", 1, false)
+	c.getBlockByHeight("ro:1", 1, false)
+	c.close()
 	// rollback then a different block at the same height: fine (Rollback purges the cache)
 	c = mk("blockcache-rollback-recommit")
 	commit(c)
